@@ -25,6 +25,7 @@ META = {
     "level_note": "Trusts pathlib semantics (joinpath with a relative, pardir-free path stays under the root; "
     "with_suffix/str/Path preserve relativeness). Symlinks inside roots are not considered.",
 }
+META["technique"] += '; zero-expected lint for lexical path normalisation in the loaders (positive example kept)'
 
 JOIN_ATTRS = {"joinpath"}
 READ_ATTRS = {"open", "read_text", "read_bytes", "stat", "exists", "is_file", "is_dir", "iterdir", "glob", "rglob", "lstat"}
@@ -360,6 +361,10 @@ def run(prog: Program, res: Result) -> None:
                     else:
                         res.fail("C13.R3", file=fi.file, line=c.lineno, qualname=fi.qualname, construct=c, message="loader entry point called directly, bypassing Environment.get_template", what=what)
     res.floor("C13.R3", "loader entry-point calls", n_load, 6)
+    res.rule("C13.R5", "a name with parent-directory segments fails as written: no function of the loaders normalises a template name lexically (os.path.normpath / abspath / realpath, Path.resolve, expanduser) before the guard in resolve_path - or the cache key - sees it; `nosuchdir/../main.html` must not become `main.html`")
+    from checks.shared import check_no_lexical_path_normalisation
+
+    check_no_lexical_path_normalisation(prog, res, "C13.R5")
 
     # ------------------------------------------------------------------ R4 twins of the source getters
     res.rule("C13.R4", "sync and async source getters / loaders agree (await-normalised)")
